@@ -4,6 +4,7 @@ import (
 	"encoding/json"
 	"errors"
 	"fmt"
+	"math"
 	"strconv"
 	"strings"
 	"time"
@@ -57,6 +58,7 @@ type ItemSpec struct {
 	Flt   float64   `json:"f,omitempty"`
 	Code  string    `json:"code,omitempty"`
 	F     *Fields   `json:"fields,omitempty"`
+	Pre   *Fields   `json:"fields_before_mutation,omitempty"` // typed by-pointer items: created with these, mutated to F (then Update) before the judged render
 	Ptr   bool      `json:"ptr,omitempty"`
 	Inner *ItemSpec `json:"inner,omitempty"`
 }
@@ -66,6 +68,14 @@ type Made struct {
 	Item   interface{}
 	Mutate func(Fields) // nil when the item cannot be mutated in place
 	spec   *ItemSpec
+}
+
+// Spec returns the specification the item was made from.
+func (m *Made) Spec() *ItemSpec { return m.spec }
+
+// NeedsFinalize says whether the item was created in its pre-mutation state.
+func (m *Made) NeedsFinalize() bool {
+	return m.spec != nil && m.spec.K == "typed" && m.spec.Pre != nil && m.spec.Ptr && m.Mutate != nil
 }
 
 // StrItem is the plain string item.
@@ -144,7 +154,15 @@ func (s *ItemSpec) Make() Made {
 	case "nilsafe":
 		m.Item = (*NilSafe)(nil)
 	case "typed":
-		m.Item, m.Mutate = makeTyped(s.Code, *s.F, s.Ptr)
+		f := *s.F
+		if s.Pre != nil && s.Ptr {
+			f = *s.Pre
+		}
+		m.Item, m.Mutate = makeTyped(s.Code, f, s.Ptr)
+	case "nan":
+		m.Item = math.NaN()
+	case "inf":
+		m.Item = math.Inf(1)
 	case "cell":
 		in := s.Inner.Make()
 		m.Item = tabular.NewCell(in.Item)
@@ -268,7 +286,14 @@ func (r *R) WrapText(s string) ItemSpec {
 			f.E = s
 		}
 		recv, _, _ := codeParts(code)
-		return TypedItem(code, f, recv == 'P' || r.Bool())
+		it := TypedItem(code, f, recv == 'P' || r.Bool())
+		if it.Ptr && r.Chance(1, 3) {
+			// starts life with another text and is mutated (+Update) to this one before the judged render
+			other := r.Str(FAscii|FNewline|FWide, 4)
+			pre := Fields{S: other, G: other, E: other, HV: f.HV, WV: f.WV}
+			it.Pre = &pre
+		}
+		return it
 	case 2:
 		if r.Bool() {
 			return ItemSpec{K: "err", Str: Q(s)}
@@ -291,6 +316,9 @@ func (r *R) AnyItem(fam Fam, maxAtoms, depth int) ItemSpec {
 	case 2:
 		return ItemSpec{K: Pick(r, []string{"int", "int64", "uint8", "uint", "myint", "myrune"}), Num: int64(r.Range(-3, 300))}
 	case 3:
+		if r.Chance(1, 4) {
+			return ItemSpec{K: Pick(r, []string{"nan", "inf"})} // formattable, but encoding/json refuses them
+		}
 		return ItemSpec{K: "float", Flt: Pick(r, []float64{0, 1.5, -2.25, 1e21, 1e-7, 3})}
 	case 4:
 		return ItemSpec{K: "bool", Num: int64(r.Intn(2))}
